@@ -35,6 +35,8 @@ func dispatch(cmd string, args []string) bool {
 	switch cmd {
 	case "worker":
 		os.Exit(check.WorkerMain(args))
+	case "family":
+		os.Exit(check.FamilyMain(args))
 	case "check":
 		if len(args) < 1 {
 			fmt.Fprintln(os.Stderr, "usage: vh check <id>")
